@@ -16,7 +16,8 @@ Normals == { << >> } \cup { <<Br(a, 1)>> : a \in Branch1 }
 
 MCDecls == { WithFallback(nm, fb) : nm \in Normals, fb \in FbVariants } \ { << >> }
 
-Spellings == { [syntax |-> sx, alts |-> al, num |-> nm] : sx \in {"seq", "obj"}, al \in {"pipe", "list"}, nm \in BOOLEAN }
+Spellings == { [syntax |-> sx, alts |-> al, num |-> nm, ws |-> FALSE] : sx \in {"seq", "obj"}, al \in {"pipe", "list"}, nm \in BOOLEAN }
+             \cup { [syntax |-> "seq", alts |-> "pipe", num |-> FALSE, ws |-> TRUE] }
 \* a spelling is only distinct when the declaration has what it varies
 UsefulSp(bs, sp) ==
     /\ (sp.alts = "list" => \E j \in DOMAIN bs : Len(bs[j].alts) > 1)
